@@ -28,12 +28,21 @@ Grammar
      | {'t': 'custom', 'form': 'str'|'dict'|'evolve', 'name': ..., 'tag': ...,
         'pool': [T, ...]}     (evolve only: placeholder-free values; pool[0] is
                                the initial value)
+     A dict may carry 'specs': {key: SPEC} and a list 'elem': SPEC: the container
+     is then built with a value spec (pg.typing.Dict / pg.typing.List) to which
+     the placeholders below it are bound.  An evolve placeholder may carry
+     'transform': 'none'|'step' and 'weights': None|'leaves' (see
+     `step_transform`, `leaf_weights`).
+  SPEC := {'s': 'any'} | {'s': 'float'|'int', 'lo': num|None, 'hi': num|None,
+           'none': bool} | {'s': 'list', 'elem': SPEC, 'min': int, 'max': int|None}
   W := {'by': 'all'} | {'by': 'tag', 'keep': [tag, ...]}
      | {'by': 'kind', 'keep': ['oneof'|'manyof'|'float'|'custom', ...]}
 
 `tag` is rendered as the `hints` of the placeholder.
 """
 import itertools
+import json
+import math
 import random as pyrandom
 
 import pyglove as pg
@@ -96,6 +105,35 @@ def no_transform(location, value, parent):
   return value
 
 
+def step_transform(location, value, parent):
+  """node_transform that changes every node it is asked to transform."""
+  del location, parent
+  if value == pg.MISSING_VALUE:
+    return 7                                    # insertion into a list
+  if isinstance(value, bool):
+    return not value
+  if isinstance(value, int):
+    return value + 1
+  if isinstance(value, float):
+    return value + 1.0
+  if isinstance(value, str):
+    return value + 'm'
+  if value is None:
+    return 'n'
+  return pg.List([0])
+
+
+def leaf_weights(mutation_type, location, value, parent):
+  """Mutation weights: replace leaves only; insert / delete anywhere."""
+  del location, parent
+  if mutation_type == pg.hyper.MutationType.REPLACE:
+    return 0.0 if isinstance(value, pg.Symbolic) else 1.0
+  return 1.0
+
+
+TRANSFORMS = {'none': no_transform, 'step': step_transform}
+WEIGHTS = {None: None, 'leaves': leaf_weights}
+
 GENOMES = ['', 'abc', 'x,y', '0', 'g7']
 
 # Fields of the models classes in schema order (the order in which a template
@@ -121,12 +159,18 @@ def const(v):
   return {'t': 'const', 'v': v}
 
 
-def tdict(items):
-  return {'t': 'dict', 'items': [[k, v] for k, v in items]}
+def tdict(items, specs=None):
+  out = {'t': 'dict', 'items': [[k, v] for k, v in items]}
+  if specs:
+    out['specs'] = dict(specs)
+  return out
 
 
-def tlist(items):
-  return {'t': 'list', 'items': list(items)}
+def tlist(items, elem=None):
+  out = {'t': 'list', 'items': list(items)}
+  if elem:
+    out['elem'] = elem
+  return out
 
 
 def tobj(cls, fields):
@@ -149,9 +193,14 @@ def tfloat(lo, hi, name=None, tag=None):
           'tag': tag}
 
 
-def tcustom(form='str', name=None, tag=None, pool=None):
-  return {'t': 'custom', 'form': form, 'name': name, 'tag': tag,
-          'pool': list(pool or [])}
+def tcustom(form='str', name=None, tag=None, pool=None, transform=None,
+            weights=None):
+  out = {'t': 'custom', 'form': form, 'name': name, 'tag': tag,
+         'pool': list(pool or [])}
+  if transform:
+    out['transform'] = transform
+    out['weights'] = weights
+  return out
 
 
 def children(T):
@@ -228,9 +277,14 @@ def build(T, plain_root=False, dynamic=False):
     return T['v']
   if t == 'dict':
     items = {k: build(c, dynamic=dynamic) for k, c in T['items']}
+    if T.get('specs') and not plain_root:
+      return pg.Dict(items, value_spec=pg.typing.Dict([
+          (k, real_spec(T['specs'].get(k, SPEC_ANY))) for k, _ in T['items']]))
     return items if plain_root else pg.Dict(items)
   if t == 'list':
     items = [build(c, dynamic=dynamic) for c in T['items']]
+    if T.get('elem') and not plain_root:
+      return pg.List(items, value_spec=pg.typing.List(real_spec(T['elem'])))
     return items if plain_root else pg.List(items)
   if t == 'obj':
     cls = getattr(M, T['cls'])
@@ -239,7 +293,9 @@ def build(T, plain_root=False, dynamic=False):
     return pg.floatv(T['lo'], T['hi'], name=T['name'], hints=T['tag'])
   if t == 'custom':
     if T['form'] == 'evolve':
-      return pg.evolve(build(T['pool'][0]), no_transform, name=T['name'],
+      return pg.evolve(build(T['pool'][0]),
+                       TRANSFORMS[T.get('transform') or 'none'],
+                       weights=WEIGHTS[T.get('weights')], name=T['name'],
                        hints=T['tag'])
     cls = Gen if T['form'] == 'str' else GenD
     return cls(name=T['name'], hints=T['tag'])
@@ -343,9 +399,9 @@ def _dec(T, W, it):
   if t == 'const':
     return T
   if t == 'dict':
-    return {'t': 'dict', 'items': [[k, _dec(c, W, it)] for k, c in T['items']]}
+    return dict(T, items=[[k, _dec(c, W, it)] for k, c in T['items']])
   if t == 'list':
-    return {'t': 'list', 'items': [_dec(c, W, it) for c in T['items']]}
+    return dict(T, items=[_dec(c, W, it) for c in T['items']])
   if t == 'obj':
     return {'t': 'obj', 'cls': T['cls'],
             'fields': [[k, _dec(c, W, it)] for k, c in T['fields']]}
@@ -369,7 +425,12 @@ def _dec(T, W, it):
     for E in T['pool']:
       if genome_of(E) == v:
         return E
-    raise DecodeError('genome outside the pool of the evolvable placeholder')
+    # Any other genome: the documented encoding of an evolvable value is its
+    # JSON text (harness-side parse, see `desc_from_json`).
+    try:
+      return desc_from_json(json.loads(v))
+    except (ValueError, KeyError, TypeError) as e:
+      raise DecodeError(f'genome of an evolvable placeholder not understood: {e}')
   picks, items = [], []
   for _ in range(T['k']):
     p = next(it)
@@ -391,19 +452,30 @@ def random_member(T, W, rng):
   return tuple(out)
 
 
-def _rand(T, W, rng, out):
+def extreme_member(T, W, rng, end):
+  """A random member whose float decisions all sit on the `end` ('lo'|'hi')
+  of their range."""
+  out = []
+  _rand(T, W, rng, out, end)
+  return tuple(out)
+
+
+def _rand(T, W, rng, out, end=None):
   t = T['t']
   if t not in PLACEHOLDERS:
     for _, c in children(T):
-      _rand(c, W, rng, out)
+      _rand(c, W, rng, out, end)
     return
   if not keep(W, T):
     if t == 'choice':
       for c in T['cands']:
-        _rand(c, W, rng, out)
+        _rand(c, W, rng, out, end)
     return
   if t == 'float':
-    out.append(rng.choice([T['lo'], T['hi'], rng.uniform(T['lo'], T['hi'])]))
+    if end:
+      out.append(T[end])
+    else:
+      out.append(rng.choice([T['lo'], T['hi'], rng.uniform(T['lo'], T['hi'])]))
   elif t == 'custom':
     if T['form'] == 'evolve':
       out.append(genome_of(rng.choice(T['pool'])))
@@ -419,7 +491,7 @@ def _rand(T, W, rng, out):
       picks.sort()
     for p in picks:
       out.append(p)
-      _rand(T['cands'][p], W, rng, out)
+      _rand(T['cands'][p], W, rng, out, end)
 
 
 # --------------------------------------------------------------------------
@@ -636,9 +708,13 @@ def show(T):
   if t == 'const':
     return repr(T['v'])
   if t == 'dict':
-    return '{' + ', '.join(f'{k}: {show(c)}' for k, c in T['items']) + '}'
+    sp = T.get('specs') or {}
+    return '{' + ', '.join(
+        f'{k}' + (f'<{show_spec(sp[k])}>' if k in sp else '') + f': {show(c)}'
+        for k, c in T['items']) + '}'
   if t == 'list':
-    return '[' + ', '.join(show(c) for c in T['items']) + ']'
+    return '[' + ', '.join(show(c) for c in T['items']) + ']' + (
+        f"<{show_spec(T['elem'])}>" if T.get('elem') else '')
   if t == 'obj':
     return T['cls'] + '(' + ', '.join(f'{k}={show(c)}' for k, c in T['fields']) + ')'
   deco = ''.join([('@' + T['name']) if T['name'] else '',
@@ -647,7 +723,10 @@ def show(T):
     return f"floatv({T['lo']}, {T['hi']}){deco}"
   if t == 'custom':
     if T['form'] == 'evolve':
-      return 'evolve(' + show(T['pool'][0]) + ')' + deco
+      extra = ''
+      if T.get('transform'):
+        extra = f", {T['transform']}, weights={T.get('weights')}"
+      return 'evolve(' + show(T['pool'][0]) + extra + ')' + deco
     return ('Gen()' if T['form'] == 'str' else 'GenD()') + deco
   cands = '[' + ', '.join(show(c) for c in T['cands']) + ']'
   if T['k'] == 1:
@@ -678,6 +757,7 @@ class State:
     self.dup, self.tags, self.typed, self.evolve = dup, tags, typed, evolve
     self.used_singletons = set()
     self.has_dup = False
+    self.outside = True     # bound_template: ranges may leave the field spec
 
 
 def unique_const(st, simple=False):
@@ -1015,6 +1095,459 @@ def broken_field_rules(c, out=None):
     for _, x in c[-1]:
       broken_field_rules(x, out)
   return out
+
+
+# --------------------------------------------------------------------------
+# Containers with a value spec: placeholders bound to numeric fields whose
+# bounds sit on boundary values.
+# --------------------------------------------------------------------------
+
+SPEC_ANY = {'s': 'any'}
+
+
+def spec_num(kind, lo=None, hi=None, none=False):
+  return {'s': kind, 'lo': lo, 'hi': hi, 'none': none}
+
+
+def spec_list(elem, min_size=0, max_size=None):
+  return {'s': 'list', 'elem': elem, 'min': min_size, 'max': max_size}
+
+
+def real_spec(s):
+  """The pg.typing value spec of a SPEC."""
+  if s['s'] == 'any':
+    return pg.typing.Any()
+  if s['s'] == 'list':
+    return pg.typing.List(real_spec(s['elem']), min_size=s['min'],
+                          max_size=s['max'])
+  cls = pg.typing.Float if s['s'] == 'float' else pg.typing.Int
+  v = cls(min_value=s['lo'], max_value=s['hi'])
+  return v.noneable() if s['none'] else v
+
+
+def show_spec(s):
+  if s['s'] == 'any':
+    return 'Any'
+  if s['s'] == 'list':
+    return f"List({show_spec(s['elem'])}, {s['min']}..{s['max']})"
+  return f"{s['s'].capitalize()}({s['lo']!r}..{s['hi']!r}" + (
+      ', noneable)' if s['none'] else ')')
+
+
+def _num_breaks(s, v):
+  """None, or which parameter of the numeric SPEC rejects the number v
+  (bounds are inclusive)."""
+  if s['lo'] is not None and v < s['lo']:
+    return s['s'] + '-min'
+  if s['hi'] is not None and v > s['hi']:
+    return s['s'] + '-max'
+  return None
+
+
+def value_breaks(s, v):
+  """None, or which parameter of SPEC rejects the constant v."""
+  if s['s'] == 'any':
+    return None
+  if s['s'] == 'list':
+    return 'list-type'
+  if v is None:
+    return None if s['none'] else s['s'] + '-none'
+  if isinstance(v, bool) or not isinstance(v, (int, float)):
+    return s['s'] + '-type'
+  if s['s'] == 'int' and not isinstance(v, int):
+    return 'int-type'
+  return _num_breaks(s, v)
+
+
+def desc_breaks(s, T):
+  """None, or which parameter of SPEC is broken by some value that the
+  description T (constants and placeholders of a typed field) can stand for:
+  the placeholder's range is not inside the field spec."""
+  t = T['t']
+  if s['s'] == 'any':
+    return None
+  if t == 'const':
+    return value_breaks(s, T['v'])
+  if t == 'float':
+    if s['s'] != 'float':
+      return s['s'] + '-type'
+    return _num_breaks(s, T['lo']) or _num_breaks(s, T['hi'])
+  if t == 'choice' and T['k'] == 1:
+    for c in T['cands']:
+      r = desc_breaks(s, c)
+      if r:
+        return r
+    return None
+  if t == 'choice':
+    if s['s'] != 'list':
+      return s['s'] + '-type'
+    if T['k'] < s['min'] or (s['max'] is not None and T['k'] > s['max']):
+      return 'list-size'
+    for c in T['cands']:
+      r = desc_breaks(s['elem'], c)
+      if r:
+        return r
+    return None
+  if t == 'list' and s['s'] == 'list':
+    if len(T['items']) < s['min'] or (
+        s['max'] is not None and len(T['items']) > s['max']):
+      return 'list-size'
+    for c in T['items']:
+      r = desc_breaks(s['elem'], c)
+      if r:
+        return r
+    return None
+  return s['s'] + '-type'
+
+
+def misfits(T):
+  """[which parameter, ...]: typed fields of T whose content (placeholder
+  ranges, candidates) is not inside the field spec."""
+  out = []
+  if T['t'] == 'dict':
+    for k, c in T['items']:
+      r = desc_breaks((T.get('specs') or {}).get(k, SPEC_ANY), c)
+      if r:
+        out.append(r)
+  elif T['t'] == 'list' and T.get('elem'):
+    for c in T['items']:
+      r = desc_breaks(T['elem'], c)
+      if r:
+        out.append(r)
+  kids = T['cands'] if T['t'] == 'choice' else [c for _, c in children(T)]
+  for c in kids:
+    out.extend(misfits(c))
+  return out
+
+
+def has_bound_spec(T):
+  if T.get('specs') or T.get('elem'):
+    return True
+  kids = T['cands'] if T['t'] == 'choice' else [c for _, c in children(T)]
+  return any(has_bound_spec(c) for c in kids)
+
+
+def canon_breaks(s, c):
+  """None, or which parameter of SPEC rejects the canonical form c.  A
+  placeholder left by the filter satisfies its field."""
+  if s['s'] == 'any' or c[0] == 'ph':
+    return None
+  if s['s'] == 'list':
+    if c[0] != 'list':
+      return 'list-type'
+    if len(c[1]) < s['min'] or (s['max'] is not None and len(c[1]) > s['max']):
+      return 'list-size'
+    for x in c[1]:
+      r = canon_breaks(s['elem'], x)
+      if r:
+        return r
+    return None
+  if c[0] != 'leaf':
+    return s['s'] + '-type'
+  if c[1] == 'NoneType':
+    return None if s['none'] else s['s'] + '-none'
+  if c[1] == 'int':
+    return _num_breaks(s, int(c[2]))
+  if c[1] == 'float' and s['s'] == 'float':
+    return _num_breaks(s, float(c[2]))
+  return s['s'] + '-type'
+
+
+def broken_bound_specs(D, c, out=None):
+  """['typed-dict:float-min', ...]: specs of typed containers of the decoded
+  description D that the canonical form c of the decoded value breaks."""
+  out = [] if out is None else out
+  t = D['t']
+  if t == 'dict' and c[0] == 'dict':
+    got = dict(c[1])
+    for k, sub in D['items']:
+      if k not in got:
+        continue
+      s = (D.get('specs') or {}).get(k)
+      r = canon_breaks(s, got[k]) if s else None
+      if r:
+        out.append('typed-dict:' + r)
+      broken_bound_specs(sub, got[k], out)
+  elif t == 'list' and c[0] == 'list':
+    for sub, x in zip(D['items'], c[1]):
+      r = canon_breaks(D['elem'], x) if D.get('elem') else None
+      if r:
+        out.append('typed-list:' + r)
+      broken_bound_specs(sub, x, out)
+  elif t == 'obj' and c[0] == 'obj':
+    got = dict(c[2])
+    for k, sub in D['fields']:
+      if k in got:
+        broken_bound_specs(sub, got[k], out)
+  elif t == 'choice' and c[0] == 'ph':
+    cands = dict(c[2]).get('candidates')
+    if cands and cands[0] == 'list':
+      for sub, x in zip(D['cands'], cands[1]):
+        broken_bound_specs(sub, x, out)
+  return out
+
+
+ZEROS = [0.0, -0.0, 0]
+STEPS = [5e-324, 1e-9, 0.25, 0.5, 1.0]
+
+
+def _bound(rng):
+  if rng.random() < 0.55:
+    return rng.choice(ZEROS)
+  return rng.choice([1.0, -1.0, 0.5, -0.5, 2, -3, 1e-9, -1e-9])
+
+
+def _shift(rng, b, direction):
+  """A float just / somewhat beyond b in `direction` (+1 | -1)."""
+  b = float(b)
+  if rng.random() < 0.3:
+    return math.nextafter(b, math.inf * direction)
+  return b + direction * rng.choice(STEPS)
+
+
+def float_spec(rng, none=False):
+  lo = None if rng.random() < 0.2 else _bound(rng)
+  r = rng.random()
+  if r < 0.3:
+    hi = None
+  elif lo is None:
+    hi = _bound(rng)
+  elif r < 0.5:
+    hi = rng.choice(ZEROS) if lo == 0 else lo          # equal bounds
+  elif lo < 0 and r < 0.65:
+    hi = rng.choice(ZEROS)
+  else:
+    hi = lo + rng.choice([0.5, 1.0, 2])
+  return spec_num('float', lo, hi, none)
+
+
+def _end(st, b, inward):
+  """An end of a placeholder range relative to the bound b of the field:
+  on it (with either sign of zero), just inside or (st.outside) just outside."""
+  rng = st.rng
+  r = rng.random()
+  if r < 0.35:
+    return rng.choice([0.0, -0.0]) if b == 0 else float(b)
+  return _shift(rng, b, inward if r < 0.65 or not st.outside else -inward)
+
+
+def float_range(st, s):
+  """floatv whose ends sit on / just inside / just outside the bounds of s."""
+  rng = st.rng
+  lo, hi = s['lo'], s['hi']
+  a = _end(st, lo, +1) if lo is not None else None
+  b = _end(st, hi, -1) if hi is not None else None
+  if a is None and b is None:
+    a = rng.choice([-2.0, -0.0, 0.0, 0.5])
+  if a is None:
+    a = b - rng.choice([0.0, 0.5, 2.0])
+  if b is None:
+    b = a + rng.choice([0.0, 0.5, 2.0])
+  if a > b:
+    a, b = b, a
+  if not st.outside and (_num_breaks(s, a) or _num_breaks(s, b)):
+    a = float(lo) if lo is not None else min(a, float(hi))
+    b = float(hi) if hi is not None else max(a, b)
+  return tfloat(a, b, tag=_tag(st))
+
+
+def float_value(st, s):
+  """A float constant on / around a bound of s."""
+  rng = st.rng
+  bs = [(b, d) for b, d in ((s['lo'], +1), (s['hi'], -1)) if b is not None]
+  if not bs:
+    return const(rng.choice([-1.5, 0.0, -0.0, 2.5]))
+  b, d = rng.choice(bs)
+  v = _end(st, b, d)
+  if not st.outside and _num_breaks(s, v):
+    v = float(b)
+  return const(v)
+
+
+def float_field(st, s):
+  """Content of a field with the float SPEC s."""
+  rng = st.rng
+  r = rng.random()
+  if s['none']:
+    vals = [const(None), float_value(st, s)]
+    rng.shuffle(vals)
+    return oneof(vals, tag=_tag(st))
+  if r < 0.55:
+    return float_range(st, s)
+  vals = [float_value(st, s) for _ in range(rng.randint(1, 2))]
+  if rng.random() < 0.6:
+    vals.append(float_range(st, s))
+  if len(vals) >= 3 and rng.random() < 0.4:
+    vals = [vals[0], oneof(vals[1:], tag=_tag(st))]
+  rng.shuffle(vals)
+  return oneof(vals, tag=_tag(st))
+
+
+def int_field(st):
+  """(SPEC, content) of an int field: a oneof over ints around its bounds."""
+  rng = st.rng
+  lo = rng.choice([None, 0, 0, 0, 1, -1, -3])
+  r = rng.random()
+  if r < 0.3:
+    hi = None
+  elif lo is None:
+    hi = rng.choice([0, 0, 2, -1])
+  else:
+    hi = lo + rng.choice([0, 0, 1, 3])
+  s = spec_num('int', lo, hi, rng.random() < 0.15)
+  pool = {0}
+  for b in (lo, hi):
+    if b is not None:
+      pool.update([b - 1, b, b + 1])
+  inside = [v for v in sorted(pool) if not value_breaks(s, v)]
+  if (not st.outside or rng.random() < 0.5) and len(inside) >= 1:
+    vals = rng.sample(inside, min(len(inside), rng.randint(1, 3)))
+  else:
+    vals = rng.sample(sorted(pool), min(len(pool), rng.randint(2, 3)))
+  cands = [const(v) for v in vals]
+  if s['none']:
+    cands.append(const(None))
+  elif st.outside and rng.random() < 0.1:
+    cands.append(tfloat(0.0, 1.0, tag=_tag(st)))       # never fits an int field
+  rng.shuffle(cands)
+  return s, oneof(cands, tag=_tag(st))
+
+
+def list_field(st):
+  """(SPEC, content) of a list field with bounded float elements."""
+  rng = st.rng
+  es = float_spec(rng)
+  n = rng.randint(2, 4)
+  cands = []
+  for _ in range(n):
+    cands.append(float_range(st, es) if rng.random() < 0.5 else float_value(st, es))
+  distinct, srt = rng.choice(S.MODES)
+  k = rng.randint(2, 3)
+  if distinct and k > n:
+    k = n
+  s = spec_list(es, rng.choice([0, 1, 2]), rng.choice([None, 3, 4]))
+  if st.outside and rng.random() < 0.15:
+    s = spec_list(es, rng.choice([0, k + 1]), k - 1 if s['min'] == 0 else None)
+  return s, choice(k, cands, distinct, srt, tag=_tag(st))
+
+
+def bound_template(st):
+  """A template around a pg.Dict / pg.List with a value spec whose numeric
+  bounds are boundary values (0, 0.0, -0.0, equal min/max) and whose
+  placeholders reach just inside / outside them."""
+  rng = st.rng
+  outside = rng.random() < 0.45
+  st.outside = False
+  if rng.random() < 0.15:
+    es = float_spec(rng)
+    n = rng.randint(1, 3)
+    hot = rng.randrange(n) if outside else -1       # the only slot that may misfit
+    items = []
+    for j in range(n):
+      st.outside = j == hot
+      items.append(float_range(st, es) if j == hot or rng.random() < 0.6
+                   else float_value(st, es))
+    if not any(has_placeholder(x) for x in items):
+      items[0] = float_range(st, es)
+    core = tlist(items, elem=es)
+  else:
+    items, specs = [], {}
+    keys = rng.sample(['f', 'g', 'h'], rng.randint(1, 2))
+    if rng.random() < 0.35:
+      keys.append('i')
+    if rng.random() < 0.25:
+      keys.append('l')
+    hot = rng.choice(keys) if outside else None      # the only field that may misfit
+    for k in keys:
+      st.outside = k == hot
+      if k == 'i':
+        specs[k], c = int_field(st)
+      elif k == 'l':
+        specs[k], c = list_field(st)
+      else:
+        specs[k] = float_spec(rng, none=rng.random() < 0.1)
+        c = float_field(st, specs[k])
+      items.append([k, c])
+    if rng.random() < 0.3:
+      items.append(['u', unique_const(st, True)])         # Any field
+    rng.shuffle(items)
+    core = tdict(items, specs)
+  r = rng.random()
+  if r < 0.5:
+    return core
+  if r < 0.7:
+    return tdict([['o', core], ['z', oneof([const('z0'), const('z1')], tag=_tag(st))]])
+  if r < 0.8:
+    return tlist([core, unique_const(st)])
+  return tdict([['c', oneof([unique_const(st, True), core], tag=_tag(st))]])
+
+
+# --------------------------------------------------------------------------
+# Evolvable placeholders that really mutate.
+# --------------------------------------------------------------------------
+
+def desc_from_json(j):
+  """Description of the value whose JSON form (pg.to_json) is j."""
+  if isinstance(j, list):
+    return tlist([desc_from_json(x) for x in j])
+  if isinstance(j, dict):
+    if '_type' in j:
+      mod, _, cls = j['_type'].rpartition('.')
+      if mod != M.__name__ or cls not in CLASS_FIELDS:
+        raise KeyError(j['_type'])
+      return tobj(cls, [[k, desc_from_json(v)] for k, v in j.items() if k != '_type'])
+    return tdict([[k, desc_from_json(v)] for k, v in j.items()])
+  return const(j)
+
+
+def evolvable_value(st):
+  """A placeholder-free symbolic value with leaves and lists to mutate."""
+  rng = st.rng
+
+  def leaf():
+    i = next(st.u)
+    return const(rng.choice([i, i, 'e%d' % i, i + 0.5, None, True]))
+
+  shape = rng.choice(['dict', 'list', 'any2', 'nested'])
+  if shape == 'dict':
+    return tdict([['a', leaf()], ['b', tlist([leaf(), leaf()])]])
+  if shape == 'list':
+    return tlist([leaf(), tdict([['k', leaf()]])])
+  if shape == 'any2':
+    return tobj('Any2', [['x', leaf()], ['y', tlist([leaf()])]])
+  return tdict([['m', tdict([['n', tlist([leaf(), leaf()])]])], ['z', leaf()]])
+
+
+def evolvable(st, name=None):
+  pool = [evolvable_value(st) for _ in range(3)]
+  return tcustom('evolve', name, _tag(st), pool, transform='step',
+                 weights=st.rng.choice([None, 'leaves', 'leaves']))
+
+
+def evolve_template(st):
+  """A template with evolvable placeholders whose node_transform changes
+  the value (dicts / lists / objects, as a candidate, next to other
+  placeholders)."""
+  rng = st.rng
+  e1 = evolvable(st)
+  if rng.random() < 0.7:
+    other = oneof([unique_const(st, True), unique_const(st, True)], tag=_tag(st))
+  else:
+    other = tfloat(0.0, 1.0, tag=_tag(st))
+  shape = rng.choice(['dict', 'dict', 'dict', 'list', 'obj', 'cand', 'two', 'root'])
+  if shape == 'dict':
+    items = [['x', e1], ['y', other]]
+    rng.shuffle(items)
+    return tdict(items)
+  if shape == 'list':
+    return tlist([other, e1])
+  if shape == 'obj':
+    return tobj('Any2', [['x', e1], ['y', other]])
+  if shape == 'cand':
+    return tdict([['c', oneof([unique_const(st, True), e1], tag=_tag(st))], ['y', other]])
+  if shape == 'two':
+    return tdict([['x', e1], ['in', tdict([['y', evolvable(st)]])], ['z', other]])
+  return e1
 
 
 # --------------------------------------------------------------------------
